@@ -693,6 +693,36 @@ def check_C19(ctx):
 from vlib.report import ConfigUnavailable as report_ConfigUnavailable  # noqa: E402
 
 
+def _also(pid, text):
+    LEVEL[pid] = LEVEL[pid] + " " + text
+
+
+# clauses bound after the fourth seeding round (each is a necessary condition of the property it is listed under; the rule texts are in the evidence)
+_also("C01", "Also: no transmission error is swallowed in the platform send other than the guarded retry (SEND-PROP), and every polling receive leaves the descriptor in blocking mode "
+             "(NB-PAIR, NB-MODE), so the matching blocking receive waits for the value instead of failing with would-block.")
+_also("C02", "Also: a timed receive that poll reports ready reads the message (TIMEOUT-ARM); ids of set members come from one monotone counter (SET-ID), so two live members never share an id.")
+_also("C03", "Also: no received or created descriptor survives an error exit of the unix backend (FD-PATH) and none is inheritable by a spawned program (CLOEXEC): a leaked or "
+             "inherited sending end would keep the channel connected.")
+_also("C04", "Also: the blocking mode is never cached beside the descriptor (NB-PAIR, NB-MODE: fcntl flags are constants applied per call), and the total descriptor count of a message "
+             "is bounded by the receiver's control buffer (FD-BOUND).")
+_also("C05", "Also: the backing file is created with exactly the region's length (SHM-SIBLING store-size clause: the receiver maps what fstat reports); mmap is reached only with a length "
+             "tested non-zero and its result is compared with MAP_FAILED (MAP-GUARD); the per-message socket of a fragmented message is taken from the end of the list, never mapped (DEDICATED-LAST).")
+_also("C06", "Also: the closed class a member is reported with originates from a zero-length read of its own socket, and an aborted multi-fragment message is not turned into an I/O error that "
+             "makes select drop the batch (CLOSED-ORIGIN).")
+_also("C07", "Also: the forwarding closures never unwrap the crossbeam send (RT-FORWARD): a consumer that went away does not panic the router thread.")
+_also("C08", "Also: client and server derive the socket address from the name with the same function and connect() fails only after the OS refused (OSS-ADDR).")
+_also("C09", "Also: Drop of a receiver set closes every member on every turn of its loop, also while unwinding (FD-DROP container clause); received descriptors are close-on-exec (CLOEXEC).")
+_also("C10", "Also: the ipc layer converts the platform error of a polling receive straight into TryRecvError (TRY-CONV), the only conversion that maps would-block to Empty.")
+_also("C11", "Also: a named shared-memory object is unlinked before any other OS call can fail (SHM-UNLINK-FIRST).")
+_also("C13", "Also: the room reserved for follow-up fragments is counted from the buffer's length (REASM-CONTIG reservation clause), so a first fragment shrunk by a retry does not leave the buffer short.")
+_also("C14", "Also: no endpoint taken for a message survives an error exit of the platform send (FD-PATH).")
+_also("C16", "Also: a zero-length region received from a peer is handled before mmap (MAP-GUARD).")
+_also("C17", "Also: while stopping the router unwraps nothing but the acknowledgement send (STOP-NOPANIC): no new resource is acquired on the stop path.")
+_also("C18", "Also: mmap's length is tested non-zero and its result compared with MAP_FAILED before use (MAP-GUARD).")
+_also("C19", "Also: the OS backends sort received descriptors by their own kind and take the per-message socket from the end (SPLIT-CLASSIFY, DEDICATED-LAST), as the in-process backend keeps typed lists.")
+_also("C20", "Also: poll_next passes the caller's context to the forwarding channel on every path (AS-POLL), so each pending poll is woken.")
+
+
 # --------------------------------------------------------------------------- registry metadata
 NOT_APPLICABLE = {}
 WITNESS_PROPS = []
